@@ -2343,6 +2343,533 @@ def run_argforms(ctx, V, zoo, spaces):
                     {'stream': 'argform', 'space': skey, 'kw': kw, 'form': form})
 
 
+# ---------------------------------------------------------------------------
+# ROUND 4: stream `psvalue` -- VALUES of the legacy interface on (nested, weighted) product
+# spaces: ProductSpaceUfuncs.sum/prod/min/max and the (1,1) / (2,1) wrappers of
+# wrap_ufunc_productspace, incl. the out= branch at buffer level.  The Lean value model
+# (Model/UfuncValue.lean: psReduce, psMap, psBin, psMapInto -- the subjects of C17.psReduce_*,
+# C17.psMap_flatten, C17.psBin_*, C17.psMapInto_*) is executed by the driver on the same exact
+# (dyadic) inputs and compared EXACTLY; the oracle is NumPy on the concatenated underlying
+# arrays (and on `asarray()` for power spaces), computed without the model.
+
+PS_LEAVES = [('rn', (1,)), ('rn', (2,)), ('rn', (3,)), ('rn', (2, 2)), ('discr', 3), ('discr', 2),
+             ('rn', (4,))]
+PS_UNARY = ['negative', 'square', 'absolute', 'sign', 'floor', 'ceil', 'conj']
+PS_BINARY = ['add', 'subtract', 'multiply', 'maximum', 'minimum', 'fmax', 'fmin']
+PS_REDS = ['sum', 'prod', 'min', 'max']
+PS_PROD_VALS = [Fraction(k, 2) for k in (-4, -3, -2, -1, 1, 2, 3, 4)] + [Fraction(1)] * 4
+
+
+def ps_gen_spec(rng, depth, allow_empty=True):
+    """Random structure: ['L', kind, shape] | ['N', [children], weighting] (weighting: None,
+    a float constant, or a list with one weight per part)."""
+    if depth == 0 or rng.random() < 0.3:
+        if allow_empty and rng.random() < 0.04:
+            return ['L', 'rn', [0]]
+        k, s = rng.choice(PS_LEAVES)
+        return ['L', k, list(s) if isinstance(s, tuple) else s]
+    r = rng.random()
+    if r < 0.35:      # power space
+        child = ps_gen_spec(rng, depth - 1, allow_empty)
+        n = 0 if (allow_empty and rng.random() < 0.05) else rng.choice([1, 2, 2, 3])
+        kids = [child] * n
+        if n == 0:
+            return ['P0', child]
+    else:
+        kids = [ps_gen_spec(rng, depth - 1, allow_empty) for _ in range(rng.choice([1, 2, 2, 3]))]
+    w = None
+    r = rng.random()
+    if r < 0.15:
+        w = 2.0
+    elif r < 0.3:
+        w = [float(i + 2) for i in range(len(kids))]
+    return ['N', kids, w]
+
+
+def ps_uniform(spec):
+    """an underlying array exists: power space of (power spaces of ...) one leaf space"""
+    if spec[0] == 'L':
+        return True
+    if spec[0] == 'P0':
+        return False
+    return len(spec[1]) > 0 and all(k == spec[1][0] for k in spec[1]) and ps_uniform(spec[1][0])
+
+
+def ps_build(spec, memo=None):
+    """Equal sub-structures are built ONCE (array-weighted spaces are equal only if they share
+    the weight array object, so `ProductSpace(S, S)` is a power space but two separately built
+    copies of S are different spaces)."""
+    memo = {} if memo is None else memo
+    key = json.dumps(spec)
+    if key not in memo:
+        memo[key] = _ps_build(spec, memo)
+    return memo[key]
+
+
+def _ps_build(spec, memo):
+    import odl
+    if spec[0] == 'L':
+        if spec[1] == 'rn':
+            return odl.rn(tuple(spec[2]))
+        return odl.uniform_discr(0, 1, spec[2])
+    if spec[0] == 'P0':
+        return odl.ProductSpace(ps_build(spec[1], memo), 0)
+    kids = [ps_build(k, memo) for k in spec[1]]
+    if spec[2] is None:
+        return odl.ProductSpace(*kids)
+    return odl.ProductSpace(*kids, weighting=spec[2])
+
+
+def ps_size(spec):
+    if spec[0] == 'L':
+        return int(np.prod(spec[2])) if spec[1] == 'rn' else int(spec[2])
+    if spec[0] == 'P0':
+        return 0
+    return sum(ps_size(k) for k in spec[1])
+
+
+def ps_depth(spec):
+    if spec[0] == 'L':
+        return 0
+    if spec[0] == 'P0':
+        return 1
+    return 1 + max([ps_depth(k) for k in spec[1]] or [0])
+
+
+def ps_weighted(spec):
+    return spec[0] == 'N' and (spec[2] is not None or any(ps_weighted(k) for k in spec[1]))
+
+
+def ps_shape_str(spec):
+    if spec[0] == 'L':
+        return 'L{}'.format(ps_size(spec))
+    if spec[0] == 'P0':
+        return 'N()'
+    return 'N({})'.format(';'.join(ps_shape_str(k) for k in spec[1]))
+
+
+def ps_vals(rng, spec, pool):
+    """nested lists of wire strings"""
+    if spec[0] == 'L':
+        return [core.fs(rng.choice(pool)) for _ in range(ps_size(spec))]
+    if spec[0] == 'P0':
+        return []
+    return [ps_vals(rng, k, pool) for k in spec[1]]
+
+
+def ps_element(space, spec, vals):
+    if spec[0] == 'L':
+        arr = np.array([float(Fraction(v)) for v in vals], dtype='float64')
+        shape = tuple(spec[2]) if spec[1] == 'rn' else (spec[2],)
+        return space.element(arr.reshape(shape))
+    if spec[0] == 'P0':
+        return space.element()
+    return space.element([ps_element(space[i], k, vals[i]) for i, k in enumerate(spec[1])])
+
+
+def ps_leaf_objs(elem, spec):
+    if spec[0] == 'L':
+        return [elem]
+    if spec[0] == 'P0':
+        return []
+    out = []
+    for i, k in enumerate(spec[1]):
+        out.extend(ps_leaf_objs(elem[i], k))
+    return out
+
+
+def ps_flat(elem, spec):
+    ls = ps_leaf_objs(elem, spec)
+    return np.concatenate([np.asarray(l).ravel() for l in ls]) if ls else np.zeros(0)
+
+
+def ps_enc_elem(elem, spec):
+    """wire form of the values held by a real element"""
+    if spec[0] == 'L':
+        return 'L' + ','.join(core.fs(v) for v in np.asarray(elem).ravel())
+    if spec[0] == 'P0':
+        return 'N()'
+    return 'N({})'.format(';'.join(ps_enc_elem(elem[i], k) for i, k in enumerate(spec[1])))
+
+
+def ps_enc_vals(spec, vals):
+    if spec[0] == 'L':
+        return 'L' + ','.join(vals)
+    if spec[0] == 'P0':
+        return 'N()'
+    return 'N({})'.format(';'.join(ps_enc_vals(k, v) for k, v in zip(spec[1], vals)))
+
+
+def ps_full(spec):
+    if spec[0] == 'L':
+        return ps_size(spec) > 0
+    if spec[0] == 'P0':
+        return False
+    return len(spec[1]) > 0 and all(ps_full(k) for k in spec[1])
+
+
+def ps_call(f):
+    try:
+        with warnings.catch_warnings():
+            warnings.simplefilter('ignore')
+            with np.errstate(all='ignore'):
+                return ('ok', f())
+    except Exception as e:  # noqa
+        return ('err', e)
+
+
+def ps_same_floats(a, b):
+    a, b = np.asarray(a, dtype='float64').ravel(), np.asarray(b, dtype='float64').ravel()
+    return a.shape == b.shape and bool(np.all(a == b))
+
+
+def ps_cases(ctx, n_random):
+    """JSON-able, self-contained cases."""
+    rng = ctx.rng
+    L3, L2 = ['L', 'rn', [3]], ['L', 'rn', [2]]
+    P2 = ['N', [L3, L3], None]
+    directed = [
+        {'op': 'into', 'name': 'negative', 'spec': P2, 'vals': [['1', '2', '3'], ['4', '5', '6']],
+         'out': 'alias-swap'},
+        {'op': 'into', 'name': 'square', 'spec': ['N', [P2, L2], [2.0, 3.0]],
+         'vals': [[['1', '2', '3'], ['-1/2', '5', '6']], ['7', '-2']], 'out': 'inplace'},
+        {'op': 'into', 'name': 'negative', 'spec': P2, 'vals': [['1', '2', '3'], ['4', '5', '6']],
+         'out': 'more-parts'},
+        {'op': 'into', 'name': 'negative', 'spec': P2, 'vals': [['1', '2', '3'], ['4', '5', '6']],
+         'out': 'fewer-parts'},
+        {'op': 'into', 'name': 'negative', 'spec': ['N', [L3, L2], None],
+         'vals': [['1', '2', '3'], ['4', '5']], 'out': 'leaf-size'},
+        {'op': 'into', 'name': 'negative', 'spec': ['N', [P2, L3], None],
+         'vals': [[['1', '2', '3'], ['4', '5', '6']], ['7', '8', '9']], 'out': 'structure'},
+        {'op': 'red', 'name': 'min', 'spec': ['N', [['L', 'rn', [0]], L3], None],
+         'vals': [[], ['1', '2', '3']]},
+        {'op': 'red', 'name': 'sum', 'spec': ['P0', L3], 'vals': []},
+        {'op': 'red', 'name': 'max', 'spec': ['P0', L3], 'vals': []},
+        {'op': 'bin', 'name': 'add', 'spec': ['N', [P2, P2], None],
+         'vals': [[['1', '2', '3'], ['4', '5', '6']], [['7', '8', '9'], ['1/2', '2', '3']]],
+         'arg': {'kind': 'sub', 'vals': [['1', '1', '1'], ['2', '2', '2']]}},
+        {'op': 'bin', 'name': 'multiply', 'spec': ['N', [P2, P2], None],
+         'vals': [[['1', '2', '3'], ['4', '5', '6']], [['7', '8', '9'], ['1/2', '2', '3']]],
+         'arg': {'kind': 'subsub', 'vals': ['10', '20', '1/4']}},
+    ]
+    for d in directed:
+        yield dict(d, stream='psvalue')
+    pool = [Fraction(k, 4) for k in range(-12, 13)]
+    for i in range(n_random):
+        spec = ps_gen_spec(rng, rng.choice([1, 2, 2, 3]))
+        if spec[0] == 'L' and rng.random() < 0.85:     # mostly product spaces at the top
+            spec = ['N', [spec, ps_gen_spec(rng, 1)], None]
+        if ps_size(spec) > 30:
+            continue
+        op = rng.choice(['red', 'red', 'map', 'bin', 'bin', 'into', 'into'])
+        if op == 'red':
+            name = rng.choice(PS_REDS)
+            vals = ps_vals(rng, spec, PS_PROD_VALS if name == 'prod' else pool)
+            yield {'stream': 'psvalue', 'op': 'red', 'name': name, 'spec': spec, 'vals': vals}
+        elif op == 'map':
+            yield {'stream': 'psvalue', 'op': 'map', 'name': rng.choice(PS_UNARY), 'spec': spec,
+                   'vals': ps_vals(rng, spec, pool)}
+        elif op == 'bin':
+            name = rng.choice(PS_BINARY)
+            vpool = PS_PROD_VALS if name == 'multiply' else pool
+            kind = rng.choice(['scalar', 'same', 'same', 'sub'])
+            if kind == 'sub' and not (spec[0] == 'N' and len(spec[1]) > 1 and
+                                      all(k == spec[1][0] for k in spec[1])):
+                kind = 'same'
+            if kind == 'scalar':
+                arg = {'kind': 'scalar', 'c': core.fs(rng.choice(vpool)),
+                       'int': rng.random() < 0.3}
+            elif kind == 'same':
+                arg = {'kind': 'same', 'vals': ps_vals(rng, spec, vpool)}
+            else:
+                arg = {'kind': 'sub', 'vals': ps_vals(rng, spec[1][0], vpool)}
+            yield {'stream': 'psvalue', 'op': 'bin', 'name': name, 'spec': spec,
+                   'vals': ps_vals(rng, spec, vpool), 'arg': arg}
+        else:
+            if spec[0] != 'N':
+                continue
+            out = rng.choice(['disjoint', 'disjoint', 'inplace', 'alias-swap', 'more-parts',
+                              'fewer-parts'])
+            yield {'stream': 'psvalue', 'op': 'into', 'name': rng.choice(PS_UNARY),
+                   'spec': spec, 'vals': ps_vals(rng, spec, pool), 'out': out}
+
+
+def ps_out_element(case, space, spec, x):
+    """(out element, its spec) for the `into` cases, built with the library's constructors."""
+    import odl
+    how = case['out']
+    if how == 'inplace':
+        return x, spec
+    if how == 'disjoint':
+        o = space.element()
+        for l in ps_leaf_objs(o, spec):
+            np.asarray(l)  # allocate
+            l[:] = 7.0
+        return o, spec
+    if how == 'alias-swap':
+        # the parts of x, rotated by one: out[i] IS x[i+1] (same objects, no copies)
+        if len(spec[1]) < 2 or any(k != spec[1][0] for k in spec[1]):
+            return None, None
+        parts = [x[(i + 1) % len(x)] for i in range(len(x))]
+        o = space.element(parts)
+        if not all(o[i] is parts[i] for i in range(len(parts))):
+            return None, None
+        return o, spec
+    if how in ('more-parts', 'fewer-parts'):
+        kids = list(spec[1])
+        kids = kids + [kids[-1]] if how == 'more-parts' else kids[:-1]
+        if not kids:
+            return None, None
+        ospec = ['N', kids, None]
+        osp = ps_build(ospec)
+        o = osp.element()
+        for l in ps_leaf_objs(o, ospec):
+            l[:] = 7.0
+        return o, ospec
+    if how == 'leaf-size':
+        ospec = ['N', list(reversed(spec[1])), None]
+        o = ps_build(ospec).element()
+        for l in ps_leaf_objs(o, ospec):
+            l[:] = 7.0
+        return o, ospec
+    if how == 'structure':
+        ospec = ['N', [spec[1][1], spec[1][0]], None]
+        o = ps_build(ospec).element()
+        for l in ps_leaf_objs(o, ospec):
+            l[:] = 7.0
+        return o, ospec
+    return None, None
+
+
+def ps_run_case(case):
+    """Runs one case on the real code. Returns dict(line=protocol line, impl=canonical answer of
+    the real code, problems=[(code, text)], hits=[strata]) or None if the case is unbuildable."""
+    spec, name, op = case['spec'], case['name'], case['op']
+    space = ps_build(spec)
+    x = ps_element(space, spec, case['vals'])
+    flat0 = ps_flat(x, spec).copy()
+    tree = ps_enc_vals(spec, case['vals'])
+    problems, hits = [], []
+    if ps_depth(spec) >= 2:
+        hits.append('psvalue/{}/nested'.format(op))
+    if ps_weighted(spec):
+        hits.append('psvalue/{}/weighted'.format(op))
+    if spec[0] == 'L':
+        hits.append('psvalue/{}/single-leaf'.format(op))
+    is_ps = spec[0] != 'L'
+    use_asarray = is_ps and ps_uniform(spec) and ps_size(spec) > 0
+    if use_asarray:
+        a = ps_call(lambda: x.asarray())
+        if a[0] != 'ok' or not ps_same_floats(a[1], flat0):
+            problems.append(('asarray-order', 'asarray() of a power-space element is not the '
+                             'concatenation of its parts: {}'.format(exc_desc(a[1]) if a[0] == 'err'
+                                                                     else a[1].tolist())))
+    if op == 'red':
+        line = 'psred name={} tree={}'.format(name, tree)
+        res = ps_call(lambda: getattr(x.ufuncs, name)())
+        npf = getattr(np, name)
+        ref = ps_call(lambda: npf(x.asarray()) if use_asarray else npf(flat0))
+        referent = use_asarray or ps_full(spec) or ps_size(spec) == 0 or name in ('sum', 'prod')
+        if res[0] == 'ok':
+            impl = 'ok ' + core.fs(float(res[1])) if np.ndim(res[1]) == 0 else 'ok nonscalar'
+        else:
+            impl = 'err:' + type(res[1]).__name__
+        hits.append('psvalue/red/{}/{}'.format(name, res[0]))
+        if not referent:
+            hits.append('psvalue/red/mixed-empty-no-referent')
+        elif res[0] != ref[0]:
+            problems.append(('reduction-outcome', 'x.ufuncs.{}() {} but NumPy on the underlying '
+                             'values {}'.format(name, 'raises ' + exc_desc(res[1]) if res[0] == 'err'
+                                                else 'returns', 'raises ' + exc_desc(ref[1])
+                                                if ref[0] == 'err' else 'returns')))
+        elif res[0] == 'ok' and not (np.ndim(res[1]) == 0 and float(res[1]) == float(ref[1])):
+            problems.append(('reduction-value', 'x.ufuncs.{}() = {!r}, NumPy on the underlying '
+                             'values = {!r}'.format(name, res[1], ref[1])))
+        elif res[0] == 'err' and type(res[1]) is not type(ref[1]):
+            problems.append(('reduction-exception', '{} vs NumPy {}'.format(
+                exc_desc(res[1]), exc_desc(ref[1]))))
+    elif op == 'map':
+        line = 'psmap name={} tree={}'.format(name, tree)
+        res = ps_call(lambda: getattr(x.ufuncs, name)())
+        ref = getattr(np, name)(flat0)
+        hits.append('psvalue/map/{}'.format(res[0]))
+        if res[0] == 'ok':
+            r = res[1]
+            if is_ps and not (r in space):
+                problems.append(('result-space', 'result not in the space of the operand'))
+                impl = 'ok foreign'
+            else:
+                impl = 'ok ' + ps_enc_elem(r, spec)
+                if not ps_same_floats(ps_flat(r, spec), ref):
+                    problems.append(('values', 'values differ from np.{}(underlying values)'.format(
+                        name)))
+                if any(np.shares_memory(np.asarray(a), np.asarray(b))
+                       for a in ps_leaf_objs(r, spec) for b in ps_leaf_objs(x, spec)):
+                    problems.append(('result-aliases-operand', 'fresh result shares memory with x'))
+        else:
+            impl = 'err:' + type(res[1]).__name__
+            problems.append(('impl-raised', exc_desc(res[1])))
+    elif op == 'bin':
+        arg = case['arg']
+        kind = arg['kind']
+        if kind == 'scalar':
+            c = Fraction(arg['c'])
+            y = int(c) if (arg.get('int') and c.denominator == 1) else float(c)
+            wire = 's:' + core.fs(c)
+            ref = ps_call(lambda: getattr(np, name)(flat0, y))
+            hits.append('psvalue/bin/scalar-' + type(y).__name__)
+        else:
+            yspec = spec if kind == 'same' else (spec[1][0] if kind == 'sub' else spec[1][0][1][0])
+            ysp = space if kind == 'same' else (space[0] if kind == 'sub' else space[0][0])
+            y = ps_element(ysp, yspec, arg['vals'])
+            wire = 'e:' + ps_enc_vals(yspec, arg['vals'])
+            yflat = ps_flat(y, yspec).copy()
+            if kind == 'same':
+                ref = ps_call(lambda: getattr(np, name)(flat0, yflat))
+            else:
+                # NumPy broadcasting on the underlying values: one row per block of x2's size
+                ref = ps_call(lambda: getattr(np, name)(
+                    flat0.reshape(-1, yflat.size) if yflat.size else flat0, yflat))
+            hits.append('psvalue/bin/' + kind)
+            # the model decides `x2 in space` by structure: check that on the real objects
+            if (y in space) != (ps_shape_str(yspec) == ps_shape_str(spec)):
+                problems.append(('in-space-vs-structure', '`x2 in space` is {} but the structures '
+                                 '{}'.format(y in space, 'agree' if ps_shape_str(yspec) ==
+                                             ps_shape_str(spec) else 'differ')))
+        line = 'psbin name={} tree={} arg={}'.format(name, tree, wire)
+        res = ps_call(lambda: getattr(x.ufuncs, name)(y))
+        if res[0] == 'ok':
+            r = res[1]
+            if is_ps and not (r in space):
+                problems.append(('result-space', 'result not in the space of the operand'))
+                impl = 'ok foreign'
+            else:
+                impl = 'ok ' + ps_enc_elem(r, spec)
+                if ref[0] != 'ok' or not ps_same_floats(ps_flat(r, spec), ref[1]):
+                    problems.append(('values', 'values differ from np.{}(underlying values, '
+                                     'x2)'.format(name)))
+        else:
+            impl = 'err:' + type(res[1]).__name__
+            problems.append(('impl-raised', exc_desc(res[1])))
+        if kind != 'scalar' and not ps_same_floats(ps_flat(y, yspec), yflat):
+            problems.append(('operand-modified', 'x2 changed'))
+    else:
+        o, ospec = ps_out_element(case, space, spec, x)
+        if o is None:
+            return None
+        how = case['out']
+        objs = []
+        for l in ps_leaf_objs(x, spec) + ps_leaf_objs(o, ospec):
+            if not any(l is m for m in objs):
+                objs.append(l)
+
+        if not objs:
+            return None
+
+        def ident(l):
+            return [i for i, m in enumerate(objs) if m is l][0]
+
+        def benc(elem, sp):
+            if sp[0] == 'L':
+                return 'B{}'.format(ident(elem))
+            if sp[0] == 'P0':
+                return 'N()'
+            return 'N({})'.format(';'.join(benc(elem[i], k) for i, k in enumerate(sp[1])))
+
+        def heap():
+            return '|'.join(core.fl(np.asarray(m).ravel()) for m in objs)
+        before = [np.asarray(m).ravel().copy() for m in objs]
+        line = 'psinto name={} heap={} x={} out={}'.format(name, heap(), benc(x, spec),
+                                                            benc(o, ospec))
+        res = ps_call(lambda: getattr(x.ufuncs, name)(out=o))
+        hits.append('psvalue/into/{}/{}'.format(how, res[0]))
+        out_ids = set(ident(l) for l in ps_leaf_objs(o, ospec))
+        if res[0] == 'ok':
+            impl = 'ok ' + heap()
+            if res[1] is not o:
+                problems.append(('out-identity', 'the returned object is not the given out'))
+            for i, m in enumerate(objs):
+                if i not in out_ids and not ps_same_floats(np.asarray(m), before[i]):
+                    problems.append(('non-out-buffer-written', 'a buffer that is not part of out '
+                                     'changed'))
+            # NumPy on the underlying values: np.f(x_flat, out=out_flat) needs equal sizes
+            if ps_shape_str(ospec) != ps_shape_str(spec):
+                if len(ospec[1]) != len(spec[1]):
+                    problems.append(('out-part-count-not-checked',
+                                     'x has {} parts, out has {}: no error, {}'.format(
+                                         len(spec[1]), len(ospec[1]),
+                                         'trailing parts of out never written'
+                                         if len(ospec[1]) > len(spec[1]) else
+                                         'results of trailing parts of x dropped')))
+                else:
+                    problems.append(('out-structure-not-checked', 'out of another structure '
+                                     'accepted'))
+            elif how in ('disjoint', 'inplace'):
+                if not ps_same_floats(ps_flat(o, ospec), getattr(np, name)(flat0)):
+                    problems.append(('out-contents', 'out does not hold np.{}(values of x)'.format(
+                        name)))
+                if how == 'disjoint' and not ps_same_floats(ps_flat(x, spec), flat0):
+                    problems.append(('operand-modified', 'x changed'))
+        else:
+            impl = 'err'
+            if ps_shape_str(ospec) == ps_shape_str(spec):
+                problems.append(('impl-raised', exc_desc(res[1])))
+    if op != 'into' and not ps_same_floats(ps_flat(x, spec), flat0):
+        problems.append(('operand-modified', 'x changed'))
+    return dict(line=line, impl=impl, problems=problems, hits=hits)
+
+
+def ps_key(case, code):
+    return 'psvalue op={} name={} shape={}{} code={}'.format(
+        case['op'], case['name'], ps_shape_str(case['spec']),
+        ' out=' + case['out'] if 'out' in case else
+        (' arg=' + case['arg']['kind'] if 'arg' in case else ''), code)
+
+
+PSVALUE_STRATA = (
+    ['psvalue/red/{}/ok'.format(n) for n in PS_REDS] +
+    ['psvalue/red/min/err', 'psvalue/red/max/err', 'psvalue/red/nested', 'psvalue/red/weighted',
+     'psvalue/red/mixed-empty-no-referent', 'psvalue/map/ok', 'psvalue/map/nested',
+     'psvalue/map/weighted', 'psvalue/bin/scalar-float', 'psvalue/bin/scalar-int',
+     'psvalue/bin/same', 'psvalue/bin/sub', 'psvalue/bin/subsub', 'psvalue/bin/nested',
+     'psvalue/into/disjoint/ok', 'psvalue/into/inplace/ok', 'psvalue/into/alias-swap/ok',
+     'psvalue/into/more-parts/ok', 'psvalue/into/fewer-parts/ok', 'psvalue/into/leaf-size/err',
+     'psvalue/into/structure/err', 'psvalue/into/nested', 'psvalue/into/weighted'])
+
+
+def run_psvalue(ctx, V, n_random):
+    cases, results = [], []
+    for case in ps_cases(ctx, n_random):
+        try:
+            r = ps_run_case(case)
+        except Exception as e:  # noqa  (constructors of the library raised: the case's outcome)
+            import traceback
+            tb = [l.strip() for l in traceback.format_exc().split('\n')
+                  if l.strip().startswith('File')]
+            V.add(ps_key(case, 'case-construction-raised:{}'.format(type(e).__name__)),
+                  '{}: {} :: {}'.format(type(e).__name__, str(e)[:160], ' <- '.join(tb[-2:]))[:500],
+                  case)
+            continue
+        if r is None:
+            continue
+        cases.append(case)
+        results.append(r)
+    answers = core.run_driver('C17', [r['line'] for r in results])
+    for case, r, ans in zip(cases, results, answers):
+        ctx.case(('psvalue', case['op'], case['name'], ps_shape_str(case['spec']),
+                  case.get('out'), (case.get('arg') or {}).get('kind'))
+                 if r['impl'].startswith('ok') else None)
+        ctx.hit('psvalue/' + case['op'])
+        for h in r['hits']:
+            ctx.hit(h)
+        ctx.hit('model/psvalue/{}/{}'.format(case['op'], ans.split(' ')[0].split(':')[0]))
+        for code, text in r['problems']:
+            V.add(ps_key(case, code), '{} :: {}'.format(text, r['impl'])[:400], case)
+        if ans != r['impl']:
+            ctx.disagree(dict(case, line=r['line']), r['impl'], ans, stream='psvalue')
+    ctx.extra['psvalue_cases'] = len(cases)
+
+
 def model_branch(c, r, ans):
     """Which branch of the Lean model answered: model/<kind>/<method>/<outcome class>."""
     if ans.startswith('ok '):
@@ -2413,6 +2940,9 @@ EXPECTED_MODEL_BRANCHES = [
     'model/tensor/reduceat/err:ValueError', 'model/tensor/reduceat/err:numpy',
     'model/tensor/reduceat/notimpl', 'model/tensor/reduceat/ok:given',
     'model/tensor/reduceat/ok:wrap',
+    # ROUND 4: value / buffer model of the legacy product-space interface
+    'model/psvalue/bin/ok', 'model/psvalue/into/err', 'model/psvalue/into/ok',
+    'model/psvalue/map/ok', 'model/psvalue/red/err', 'model/psvalue/red/ok',
 ]
 
 
@@ -2468,7 +2998,7 @@ EXPECTED_STRATA = (
     ['layout/{}/{}'.format(l, m) for l in ('F', 'strided', 'slice-view')
      for m in ('call', 'at', 'reduce', 'accumulate', 'outer', 'reduceat')] +
     ['history/values/' + k for k in ('tensor', 'discr', 'power')] +
-    SPECIAL_ARGFORM_STRATA +
+    SPECIAL_ARGFORM_STRATA + list(PSVALUE_STRATA) +
     ['history/{}/{}'.format(c, s) for c in ('isnan', 'less', 'signbit', 'mul1j', 'add_f32',
                                             'true_divide', 'sin')
      for s in ('rn3^2', 'discr3^2', 'rn4^2', 'cn3^2', 'rn3^3', 'f32_3^2', 'discr2x2^2',
@@ -2659,13 +3189,20 @@ def run(ctx, deep=False):
         V.add('value-history stream raised {}({})'.format(type(e).__name__, msg_tag(e)),
               '{}: {}'.format(type(e).__name__, str(e)[:200]), {'stream': 'valuehistory'})
     try:
+        run_psvalue(ctx, V, 1000 if ctx.tier == 'quick' else 12000)
+    except core.DriverBroken:
+        raise
+    except Exception as e:  # noqa
+        V.add('psvalue stream raised {}({})'.format(type(e).__name__, msg_tag(e)),
+              '{}: {}'.format(type(e).__name__, str(e)[:200]), {'stream': 'psvalue-stream'})
+    try:
         run_history(ctx, V)
     except Exception as e:  # noqa
         V.add('history stream raised {}({})'.format(type(e).__name__, msg_tag(e)),
               '{}: {}'.format(type(e).__name__, str(e)[:200]), {'stream': 'history'})
     V.flush()
     strata = set(k for k in ctx.branches if k.startswith(('layout/', 'history/', 'special/',
-                                                            'argform/')))  # incl. history/values/
+                                                            'argform/', 'psvalue/')))  # incl. history/values/
     ctx.extra['unhit_strata'] = sorted(set(EXPECTED_STRATA) - strata)
     if ctx.extra['unhit_strata'] and ctx.tier == 'thorough':
         ctx.disagree({'unhit_strata': ctx.extra['unhit_strata']},
@@ -2725,6 +3262,14 @@ def replay(ctx, case):
         run_history(ctx, v)
         hits = [w for k, w, d in v.items if d == case]
         return '; '.join(hits) if hits else None
+    if case.get('stream') == 'psvalue':
+        try:
+            r = ps_run_case(case)
+        except Exception as e:  # noqa
+            return 'case construction raised {}: {}'.format(type(e).__name__, str(e)[:200])
+        if r is None or not r['problems']:
+            return None
+        return '; '.join('{}: {}'.format(a, b) for a, b in r['problems'])
     if case.get('stream') == 'import':
         z, _ = build_zoo(ctx)
         return None if z is not None else ctx.violations[-1]['what']
